@@ -194,16 +194,41 @@ func (w *world) isTrueConst(v ssa.Value) bool {
 	return ok && c.Value != nil && c.Value.Kind().String() == "Bool" && c.Value.ExactString() == "true"
 }
 
-// registrations of fn: extensionsUsed[k] = true updates.
-func (w *world) registrations(fn *ssa.Function, field *types.Var) []*ssa.MapUpdate {
-	var out []*ssa.MapUpdate
+// reg: a point where fn declares extension key as used — extensionsUsed[key] = true, or a call
+// to a package function that does so unconditionally for one of its parameters.
+type reg struct {
+	instr ssa.Instruction
+	key   ssa.Value
+}
+
+func (w *world) registrations(fn *ssa.Function, field *types.Var) []reg {
+	return w.registrationsD(fn, field, 0)
+}
+
+func (w *world) registrationsD(fn *ssa.Function, field *types.Var, depth int) []reg {
+	var out []reg
 	ssau.AllInstrs(fn, func(in ssa.Instruction) {
-		mu, ok := in.(*ssa.MapUpdate)
-		if !ok || !w.isTrueConst(mu.Value) {
-			return
-		}
-		if w.isLoadOfWriterField(mu.Map, field) {
-			out = append(out, mu)
+		switch in := in.(type) {
+		case *ssa.MapUpdate:
+			if w.isTrueConst(in.Value) && w.isLoadOfWriterField(in.Map, field) {
+				out = append(out, reg{in, in.Key})
+			}
+		case *ssa.Call:
+			cal := in.Common().StaticCallee()
+			if cal == nil || w.scan[cal] == nil || cal == fn || depth > 2 || cal.Blocks == nil {
+				return
+			}
+			for _, r := range w.registrationsD(cal, field, depth+1) {
+				p, ok := r.key.(*ssa.Parameter)
+				if !ok || !always(r.instr, cal.Blocks[0].Instrs[0]) {
+					continue
+				}
+				for i, cp := range cal.Params {
+					if cp == p && i < len(in.Common().Args) {
+						out = append(out, reg{in, in.Common().Args[i]})
+					}
+				}
+			}
 		}
 	})
 	return out
@@ -235,9 +260,9 @@ func (w *world) ruleExt(a *agg) {
 		regs := w.registrations(fn, fUsed)
 		findReg := func(key ssa.Value, at ssa.Instruction) (found, onAllPaths bool) {
 			for _, r := range regs {
-				if w.sameValue(r.Key, key) {
+				if w.sameValue(r.key, key) {
 					found = true
-					if always(r, at) {
+					if always(r.instr, at) {
 						return true, true
 					}
 				}
@@ -365,7 +390,7 @@ func (w *world) everyGrowthRegisters(fld *types.Var, key ssa.Value, fUsed *types
 			n++
 			ok2 := false
 			for _, r := range w.registrations(fn, fUsed) {
-				if w.sameValue(r.Key, key) && always(r, st) {
+				if w.sameValue(r.key, key) && always(r.instr, st) {
 					ok2 = true
 				}
 			}
